@@ -2,11 +2,11 @@
    never wedges.  Statements only; proofs live in Proofs/EngineP.v.
 
    Every theorem quantifies over: the value and expression types, the
-   evaluation oracle [eval] (None = the expression fails on that database
+   evaluation oracle [eval] (a value, an error, or a Go panic on that database
    value), every enumeration order [ord] of the watcher map (any permutation,
    possibly different at every step), every observer callback (a function of
-   the number of deliveries so far and the value; false = it returned an
-   error), the initial database, ALL finite histories [h] of API calls in
+   the number of deliveries so far and the value; it returns nil, returns an
+   error, or panics), the initial database, ALL finite histories [h] of API calls in
    acknowledgement order, and every quirk setting [q] under the guard "the
    observables of this run are those of the repaired model". *)
 From Coq Require Import List ZArith Bool Permutation.
@@ -17,7 +17,7 @@ Open Scope Z_scope.
 (* (1) never wedges: no SelfBlock, no Panic; until Stop the loop is Running and
        every call is answered (an Update by ok/error, the others by returning) *)
 Theorem C17_never_wedges :
-  forall V E (eval : E -> V -> option V) ord, (forall n l, Permutation (ord n l) l) ->
+  forall V E (eval : E -> V -> eres V) ord, (forall n l, Permutation (ord n l) l) ->
   forall q db0 h,
     observables V E (run V E eval ord q db0 h) = observables V E (run V E eval ord quirks17_off db0 h) ->
     s_status V E (run V E eval ord q db0 h) <> Wedged /\ s_status V E (run V E eval ord q db0 h) <> Crashed
@@ -36,7 +36,7 @@ Print Assumptions C17_never_wedges.
        answers are [spec_acks] (each Update answered by whether its expression
        evaluated on the database of that moment) *)
 Theorem C17_refines_sequential_spec :
-  forall V E (eval : E -> V -> option V) ord, (forall n l, Permutation (ord n l) l) ->
+  forall V E (eval : E -> V -> eres V) ord, (forall n l, Permutation (ord n l) l) ->
   forall q db0 h,
     observables V E (run V E eval ord q db0 h) = observables V E (run V E eval ord quirks17_off db0 h) ->
     (forall i, obs_trace V i (s_trace V E (run V E eval ord q db0 h)) = spec_trace V E eval i db0 h)
@@ -50,7 +50,7 @@ Print Assumptions C17_refines_sequential_spec.
        observers (their Observe events with expressions and callbacks, their
        cancels - also repeated ones) is erased give observer i the same trace *)
 Theorem C17_isolation :
-  forall V E (eval : E -> V -> option V) ord, (forall n l, Permutation (ord n l) l) ->
+  forall V E (eval : E -> V -> eres V) ord, (forall n l, Permutation (ord n l) l) ->
   forall q db0 i h h',
     observables V E (run V E eval ord q db0 h) = observables V E (run V E eval ord quirks17_off db0 h) ->
     observables V E (run V E eval ord q db0 h') = observables V E (run V E eval ord quirks17_off db0 h') ->
@@ -61,14 +61,14 @@ Print Assumptions C17_isolation.
 
 (* the specification itself never looks at the other observers *)
 Theorem C17_spec_ignores_other_observers :
-  forall V E (eval : E -> V -> option V) i h db o,
+  forall V E (eval : E -> V -> eres V) i h db o,
     spec_trace_from V E eval i db o (erase_others V E i h) = spec_trace_from V E eval i db o h.
 Proof. exact spec_trace_erase. Qed.
 Print Assumptions C17_spec_ignores_other_observers.
 
 (* the enumeration order of the watcher map is invisible to each observer and to the callers *)
 Theorem C17_map_order_irrelevant :
-  forall V E (eval : E -> V -> option V) ord ord',
+  forall V E (eval : E -> V -> eres V) ord ord',
   (forall n l, Permutation (ord n l) l) -> (forall n l, Permutation (ord' n l) l) ->
   forall db0 h i,
     obs_trace V i (s_trace V E (run V E eval ord quirks17_off db0 h)) =
@@ -77,9 +77,22 @@ Theorem C17_map_order_irrelevant :
 Proof. exact order_irrelevant_off. Qed.
 Print Assumptions C17_map_order_irrelevant.
 
+(* (4) every observer (subscribed once: ids are fresh) is closed at most once and is told nothing after
+       its close - whatever fails or PANICS (evaluation of its expression or its callback: [EPanic],
+       [CbPanic] are oracle outcomes like any other).  Hence an onclose that hands over to a one-shot
+       receiver (the gRPC front end's unbuffered `retch`) is never entered twice and cannot block the loop. *)
+Theorem C17_closed_once_then_silent :
+  forall V E (eval : E -> V -> eres V) ord, (forall n l, Permutation (ord n l) l) ->
+  forall q db0 h i,
+    observables V E (run V E eval ord q db0 h) = observables V E (run V E eval ord quirks17_off db0 h) ->
+    observed_once V E i h = true ->
+    closed_once V (obs_trace V i (s_trace V E (run V E eval ord q db0 h))) = true.
+Proof. exact closed_once_q. Qed.
+Print Assumptions C17_closed_once_then_silent.
+
 (* the unconditional statements for the repaired model (what the guard reduces to) *)
 Theorem C17_repaired_never_wedges :
-  forall V E (eval : E -> V -> option V) ord, (forall n l, Permutation (ord n l) l) ->
+  forall V E (eval : E -> V -> eres V) ord, (forall n l, Permutation (ord n l) l) ->
   forall db0 h,
     s_status V E (run V E eval ord quirks17_off db0 h) <> Wedged
     /\ s_status V E (run V E eval ord quirks17_off db0 h) <> Crashed
@@ -111,6 +124,30 @@ Lemma C17_q_double_cancel_nil_refuted :
   /\ s_status _ _ (crun only_double_cancel wit_cancel_after_hangup) = Crashed.
 Proof. exact double_cancel_refuted. Qed.
 Print Assumptions C17_q_double_cancel_nil_refuted.
+
+(* engine.go Start, case req := <-e.updateDB: req.expr.Eval panics on the loop goroutine *)
+Lemma C17_q_update_panic_kills_refuted :
+  s_status _ _ (crun only_update_panic wit_update_panics) = Crashed
+  /\ s_acks _ _ (crun only_update_panic wit_update_panics) = [ADone; ANone; ANone]
+  /\ s_acks _ _ (crun quirks17_off wit_update_panics) = [ADone; AUpd false; AUpd true].
+Proof. exact update_panic_refuted. Qed.
+Print Assumptions C17_q_update_panic_kills_refuted.
+
+(* panicking observers in the repaired model: closed once, dropped, nobody else affected;
+   and what the code did before the in-loop-removal fix (the watcher stayed registered) *)
+Example C17_observer_panics_repaired :
+  obs_trace _ 1 (s_trace _ _ (crun quirks17_off wit_observer_panics)) = [MUpdate (Some 1); MClose false]
+  /\ obs_trace _ 2 (s_trace _ _ (crun quirks17_off wit_observer_panics)) = [MUpdate (Some 1); MUpdate (Some 2); MClose false]
+  /\ obs_trace _ 3 (s_trace _ _ (crun quirks17_off wit_observer_panics)) = [MUpdate (Some 1); MUpdate (Some 2); MUpdate (Some 3); MUpdate (Some 4)]
+  /\ s_acks _ _ (crun quirks17_off wit_observer_panics) = [AUpd true; ADone; ADone; ADone; AUpd true; AUpd true; AUpd true].
+Proof. exact observer_panics_repaired. Qed.
+Print Assumptions C17_observer_panics_repaired.
+
+Lemma C17_q_cancel_from_loop_refuted_panic :
+  obs_trace _ 1 (s_trace _ _ (crun only_cancel_from_loop wit_observer_panics)) = [MUpdate (Some 1); MClose false; MClose false; MClose false]
+  /\ closed_once _ (obs_trace _ 1 (s_trace _ _ (crun only_cancel_from_loop wit_observer_panics))) = false.
+Proof. exact observer_panics_old_code. Qed.
+Print Assumptions C17_q_cancel_from_loop_refuted_panic.
 
 (* non-vacuity: the guard holds with every quirk on for a non-trivial history *)
 Example C17_guard_nonvacuous :
